@@ -371,6 +371,12 @@ def _args(case):
         iv = _v(init["v"]) if dt is float else np.float32(_v(init["v"]))
     elif init["t"] == "2d":
         iv = np.array([[_v(x) for x in row] for row in init["v"]], dtype=dt)
+        # the same numbers in another memory layout: column-major, or a transposed view of the transposed data
+        lay = (len(init["v"]) + len(init["v"][0]) if init["v"] else 0) % 3
+        if lay == 1:
+            iv = np.asfortranarray(iv)
+        elif lay == 2:
+            iv = np.ascontiguousarray(iv.T).T
     elif init["t"] == "percol-tuple":
         iv = tuple(_v(x) for x in init["v"])
     elif init["t"] == "percol-array":
